@@ -614,6 +614,8 @@ class Interp:
         i = self.rv(self.ev(n["inner"][1], env))
         if isinstance(a, Cell):
             a = a.v
+        if a is None:
+            raise Finding("out-of-bounds", "subscript %s of a null pointer (no element was allocated for it)" % (i,))
         if isinstance(a, Ptr):
             return Ptr(a.arr, a.idx + i).deref()
         if isinstance(a, Arr):
